@@ -254,11 +254,16 @@ def make_wsgi(shape):
     payload = bytes(range(97, 97 + N))
     enc, core, _ = encode(shape, payload)
 
-    def q(k: int, f1: int, te: int):
+    def q(k: int, f1: int, te: int, via_setup: bool):
         assume(0 <= k <= len(enc))
         assume(1 <= f1 <= 3)
         assume(0 <= te < len(TE_SPELLINGS))       # transfer-coding names are case-insensitive (RFC 7230 4)
-        app = ombott.Ombott()
+        if via_setup:         # configured after construction (the only way to configure the module-level default app)
+            app = ombott.Ombott()
+            app.setup({"max_memfile_size": 64})
+            cover("configured-through-setup")
+        else:
+            app = ombott.Ombott({"max_memfile_size": 64})
 
         @app.route("/u", method="POST")
         def h():
